@@ -300,14 +300,28 @@ impl<'r> Gen<'r> {
         if self.f.traits {
             let n = 1 + self.rng.below(2);
             for i in 0..n {
-                let nm = 1 + self.rng.below(2);
+                let nm = 1 + self.rng.below(3);
                 let mut methods = Vec::new();
+                // method names of one trait may be affixes of each other (`t0m0` / `x_t0m0` / `t0m0_x`, the longer
+                // one first or last) and then share one signature: picking an implementation by a partial name match
+                // yields a well-typed call of the wrong method
+                let scheme = self.rng.below(5);
+                let (extra0, ret0) = (if self.rng.chance(1, 3) { vec![I32] } else { vec![] }, if self.rng.bool() { I32 } else { Ty::Str });
                 for j in 0..nm {
                     let extra = if self.rng.chance(1, 3) { vec![I32] } else { vec![] };
                     let ret = if self.rng.bool() { I32 } else { Ty::Str };
-                    methods.push(MethodSig { name: format!("t{}m{}", i, j), extra, ret });
+                    let base = format!("t{}m0", i);
+                    let (name, related) = match (scheme, j) {
+                        (1, 0) | (2, 1) | (3, 0) | (4, 1) => (base, true),
+                        (1, 1) | (2, 0) => (format!("x_{}", base), true),
+                        (3, 1) | (4, 0) => (format!("{}_x", base), true),
+                        _ => (format!("t{}m{}", i, j + 1), false),
+                    };
+                    if related { methods.push(MethodSig { name, extra: extra0.clone(), ret: ret0.clone() }) } else { methods.push(MethodSig { name, extra, ret }) }
                 }
-                let t = TraitDecl { name: format!("Tr{}", i), methods };
+                // the second trait's name may extend the first one's
+                let tname = if i == 1 && self.rng.bool() { "Tr0x".to_string() } else { format!("Tr{}", i) };
+                let t = TraitDecl { name: tname, methods };
                 self.traits.push(t.clone());
                 self.prog.items.push(Item::Trait(t));
             }
@@ -347,6 +361,10 @@ impl<'r> Gen<'r> {
                         let scope: Vec<Var> = params.iter().map(|(n, t)| Var { name: n.clone(), ty: t.clone(), is_closure: false, known: true }).collect();
                         let body = self.gen_block(&m.ret, 2, &scope);
                         methods.push(FnDecl { name: m.name.clone(), tparams: vec![], params, ret: m.ret.clone(), body });
+                    }
+                    // an impl block may list the methods in another order than the trait does
+                    if self.rng.chance(1, 3) {
+                        methods.reverse();
                     }
                     self.trait_impls.push((t.name.clone(), ty.clone()));
                     self.prog.items.push(Item::Impl(ImplDecl { trait_name: Some(t.name.clone()), for_ty: ty, tparams: vec![], methods }));
@@ -1197,6 +1215,22 @@ impl<'r> Gen<'r> {
         self.tag("match");
         let st = self.matchable_type();
         let scrut = self.gen_expr(&st, depth - 1, scope);
+        // the scrutinee is sometimes a variable that the arms match again (one or two sibling matches on the
+        // same variable inside an arm of the match on it)
+        let mut outer_scope = scope.to_vec();
+        let mut bound: Option<(String, Expr)> = None;
+        let (scrut, rematch_var) = match &scrut {
+            Expr::Var(n) if self.rng.chance(1, 2) => (scrut.clone(), Some(n.clone())),
+            Expr::Var(_) => (scrut, None),
+            _ if self.rng.chance(1, 5) => {
+                let n = self.fresh(scope);
+                outer_scope.push(Var { name: n.clone(), ty: st.clone(), is_closure: false, known: false });
+                bound = Some((n.clone(), scrut));
+                (Expr::Var(n.clone()), Some(n))
+            }
+            _ => (scrut, None),
+        };
+        let scope: &[Var] = &outer_scope;
         let narms = 1 + self.rng.below(4);
         let mut arms = Vec::new();
         for _ in 0..narms {
@@ -1204,7 +1238,37 @@ impl<'r> Gen<'r> {
             let p = self.gen_pat(&st, 2, scope, &mut binds, true);
             let mut inner = scope.to_vec();
             inner.extend(binds);
-            let body = self.gen_expr(ty, depth - 1, &inner);
+            let mut stmts = Vec::new();
+            if let Some(x) = &rematch_var {
+                // the arm's own pattern variables may shadow the scrutinee variable
+                if self.rng.chance(1, 2) && !inner.iter().skip(scope.len()).any(|v| &v.name == x) {
+                    self.tag("rematch_in_arm");
+                    for _ in 0..1 + self.rng.below(2) {
+                        let mut rarms = Vec::new();
+                        for _ in 0..1 + self.rng.below(2) {
+                            let mut rb = Vec::new();
+                            let rp = self.gen_pat(&st, 1, &inner, &mut rb, true);
+                            let mut ri = inner.clone();
+                            ri.extend(rb);
+                            rarms.push((rp, self.gen_expr(&I32, 1, &ri)));
+                        }
+                        rarms.push((Pat::Wild, self.gen_expr(&I32, 0, &inner)));
+                        let rn = self.fresh(&inner);
+                        stmts.push(Stmt::Let(Pat::Var(rn.clone()), None, Expr::Match(Box::new(Expr::Var(x.clone())), rarms)));
+                        // (adversarial naming may reuse the scrutinee's own name: no further match on it then)
+                        let shadows = &rn == x;
+                        inner.push(Var { name: rn, ty: I32, is_closure: false, known: false });
+                        if shadows {
+                            break;
+                        }
+                    }
+                }
+            }
+            // the arm's value is generated in the scope after those statements
+            let mut body = self.gen_expr(ty, depth - 1, &inner);
+            if !stmts.is_empty() {
+                body = Expr::Block(stmts, Some(Box::new(body)));
+            }
             arms.push((p, body));
         }
         // catch-all unless failures are wanted
@@ -1223,7 +1287,11 @@ impl<'r> Gen<'r> {
         } else {
             self.tag("match_maybe_missing");
         }
-        Expr::Match(Box::new(scrut), arms)
+        let m = Expr::Match(Box::new(scrut), arms);
+        match bound {
+            Some((n, e)) => Expr::Block(vec![Stmt::Let(Pat::Var(n), None, e)], Some(Box::new(m))),
+            None => m,
+        }
     }
 
     // ------------------------------------------------------------ show
